@@ -163,6 +163,20 @@ Theorem C19_no_initial_connect_after_kill :
 Proof. exact initial_not_after_kill. Qed.
 Print Assumptions C19_no_initial_connect_after_kill.
 
+(* the spawn path (LoadContext with job id 0): the parent's device-info block replaces the kill date
+   before the gate; the first Connect is never made after the kill date IN FORCE (the inherited
+   one), whatever the Profile says *)
+Theorem C19_no_spawn_connect_after_effective_kill :
+  forall c inh now t, spawn_connect c inh now = Some t -> kill_passed (absorb_kill c inh) t = false.
+Proof. exact spawn_not_after_effective_kill. Qed.
+Print Assumptions C19_no_spawn_connect_after_effective_kill.
+
+Theorem C19_spawn_gate_uses_inherited_kill :
+  forall c inh now,
+  spawn_connect c inh now = match inh with Some k => if k <? now then None else Some now | None => Some now end.
+Proof. exact spawn_gate_is_inherited. Qed.
+Print Assumptions C19_spawn_gate_uses_inherited_kill.
+
 (* regression documentation: the original wait() (before fix commit 9e0f24a: kill date tested only BEFORE the sleep) also
    started an ordinary exchange after the date -- two Connects after it; and never more than two
    when time does not run backwards *)
